@@ -12,6 +12,7 @@ import FDAProofs.Lemmas.Bases
 import FDAProofs.Lemmas.LegendreReal
 import FDAProofs.Lemmas.TrigBases
 import FDAProofs.Lemmas.TrigDiscrete
+import FDAModel.Generated.BasisFormulas
 
 namespace C18
 open FDA FDA.BSpline FDA.Bases Finset intervalIntegral
@@ -349,5 +350,87 @@ example : basis3 2 2 3 2 (fun i a => (i + a + 1 : ℚ)) (fun j b => (2 * j + b :
     ((1 * 2 + 1) * 3 + 2) 1 0 1 = ((1 + 1 + 1 : ℕ) : ℚ) * ((2 * 1 + 0 : ℕ) : ℚ) * ((2 * 1 + 1 : ℕ) : ℚ) := by
   rw [tensor_row_major_3d 2 2 3 2 _ _ _ 1 1 2 1 0 1 (by norm_num) (by norm_num) (by norm_num) (by norm_num)]
   norm_num
+
+/-! ## The formulas as the SOURCE has them (`Generated/BasisFormulas.lean`, regenerated from `FDApy/misc/basis.py` on every
+run by `harness/c18_translate.py`) are the model's -/
+
+section Source
+open FDA.Generated.Basis
+
+/-- Closes what unfolding leaves of "source formula = model formula": nothing, or an identity that `ring_nf` settles
+(also inside the arguments of `sin`, `cos`, `√`), so that harmless rewritings of the source re-prove. -/
+macro "src_close" : tactic =>
+  `(tactic| first | rfl | (push_cast; ring_nf; done) | (simp; done) | (push_cast; simp; ring_nf; done) | (push_cast; field_simp; ring_nf; done) | omega)
+
+/-- `_basis_wiener` as written in the source fills row `r` (for every `r < n`) with the model's `√2·sin((r+1−½)πt)`. -/
+theorem wiener_src_eq_model (n r : ℕ) (hr : r < n) :
+    wienerLo n ≤ r + 1 ∧ r + 1 < wienerHi n ∧ wienerRow (r + 1) = r ∧
+      ∀ t : ℝ, wienerRhs (r + 1) t = BasesReal.wiener (r + 1) t := by
+  refine ⟨?_, ?_, ?_, ?_⟩
+  · unfold wienerLo; omega
+  · unfold wienerHi; omega
+  · unfold wienerRow; omega
+  · intro t; unfold wienerRhs BasesReal.wiener; src_close
+
+/-- `_basis_fourier` as written in the source: the constant row is the model's function 0 and, for every `k ≥ 1`
+inside the loop range, row `k` is the model's function `k` (which parity gets `cos`, which `sin`, the frequency
+`(k+1)//2`, the phase map and the two constants), with `a = min`, `L = ptp = b − a`. -/
+theorem fourier_src_eq_model (a b : ℝ) (n k : ℕ) (t : ℝ) :
+    fourierConst a (b - a) = BasesReal.fourier a b 0 t ∧
+    (1 ≤ k → k < n → fourierLo n ≤ k ∧ k < fourierHi n ∧ fourierRow a (b - a) k t = BasesReal.fourier a b k t) := by
+  constructor
+  · unfold fourierConst BasesReal.fourier; simp
+  · intro hk hkn
+    refine ⟨by unfold fourierLo; omega, by unfold fourierHi; omega, ?_⟩
+    have hk0 : k ≠ 0 := by omega
+    unfold fourierRow BasesReal.fourier BasesReal.fourierAngle
+    rcases Nat.mod_two_eq_zero_or_one k with h | h <;> split_ifs <;>
+      first
+        | omega
+        | rfl
+        | (congr 2; push_cast; ring_nf; done)
+        | (congr 1; push_cast; ring_nf; done)
+        | src_close
+
+/-- `_basis_legendre`: row `r` is `eval_legendre(r, ·)` for every `r < n`. -/
+theorem legendre_src_eq_model (n r : ℕ) (hr : r < n) :
+    legendreLo n ≤ r ∧ r < legendreHi n ∧ legendreRow r = r ∧ legendreDeg r = r := by
+  refine ⟨?_, ?_, ?_, ?_⟩ <;> simp [legendreLo, legendreHi, legendreRow, legendreDeg] <;> omega
+
+/-- The scalar expressions of `_basis_bsplines` are the model's: number of segments, `dx`, the `linspace` knots,
+the difference matrix scaled by `Γ(p+1)·dx^p`, the sign and the end-knot offset of the mask. -/
+theorem bspline_scalars_src_eq_model (dmin dmax : ℚ) (nfun p : ℕ) (i j k : ℕ) :
+    bsNSeg nfun p = nSeg nfun p ∧
+    bsDx dmin dmax (bsNSeg nfun p) = dx dmin dmax nfun p ∧
+    linspace (bsStart dmin dmax p (dx dmin dmax nfun p)) (bsStop dmin dmax p (dx dmin dmax nfun p)) (bsNum (nSeg nfun p) p) i
+      = knots dmin dmax nfun p i ∧
+    diffMat (bsDiffOrder p) j k / ((((bsGammaArg p - 1).factorial : ℕ) : ℚ) * bsDen2 p (dx dmin dmax nfun p)) = dMat dmin dmax nfun p j k ∧
+    bsSign p = (-1) ^ (p + 1) ∧ bsMaskOffset p = p + 1 := by
+  refine ⟨?_, ?_, ?_, ?_, ?_, ?_⟩
+  · unfold bsNSeg nSeg; src_close
+  · unfold bsDx bsNSeg dx nSeg; src_close
+  · have hnum : bsNum (nSeg nfun p) p = nKnots nfun p := by unfold bsNum nKnots; src_close
+    rw [hnum]
+    unfold knots bsStart bsStop
+    first | rfl | (congr 1 <;> src_close)
+  · unfold dMat bsDiffOrder bsGammaArg bsDen2
+    have h1 : p + 1 - 1 = p := by omega
+    first | (simp only [h1]; rfl) | (simp [h1]; done) | (simp [h1]; ring_nf; done)
+  · unfold bsSign; src_close
+  · unfold bsMaskOffset; src_close
+
+/-- Whether `_tpower` keeps (`>=`) or drops (`>`) a point lying exactly on a knot is irrelevant for degree ≥ 1. -/
+theorem tpower_src_eq_model (x kn : ℚ) (p : ℕ) (hp : 1 ≤ p) :
+    (x - kn) ^ p * (if (if bsTpowerClosed then decide (kn ≤ x) else decide (kn < x)) = true then 1 else 0) = tpower x kn p := by
+  unfold tpower
+  rcases Bool.eq_false_or_eq_true bsTpowerClosed with h | h
+  · simp [h]
+  · simp only [h, Bool.false_eq_true, if_false, decide_eq_true_eq]
+    rcases lt_trichotomy kn x with hlt | heq | hgt
+    · simp [hlt, hlt.le]
+    · subst heq; simp [zero_pow (by omega : p ≠ 0)]
+    · simp [not_lt.mpr hgt.le, not_le.mpr hgt]
+
+end Source
 
 end C18
